@@ -61,6 +61,7 @@ type c15Case struct {
 	Headers   []string `json:"headers"`
 	BodyHex   string `json:"body_hex"`
 	Desc      string `json:"desc"`
+	History   []string `json:"history_before,omitempty"` // earlier requests answered by the same server process
 	// observations
 	Reached     bool   `json:"handler_reached"`
 	HandlerPath string `json:"handler_path_hex,omitempty"`
@@ -994,6 +995,10 @@ func runC15(a vh.Args, o *vh.Oracle, r *vh.Result) error {
 	}
 	// the flag / environment plumbing of the binaries (both tiers)
 	if err := c15Plumbing(a, o, r, rng); err != nil {
+		return err
+	}
+	// histories of authorized and unauthorized requests for the same objects, binaries with default options
+	if err := c15Histories(a, o, r, rng.Fork()); err != nil {
 		return err
 	}
 	if a.Tier == "thorough" {
